@@ -935,7 +935,7 @@ def gen_cases(ctx, blends):
 
 # ---- the check -------------------------------------------------------------------------------
 def run(ctx: core.Run):
-    gen = extract_c16.gen_attr(ctx)
+    gen = ctx.regenerate(extract_c16.gen_attr)
     ctx.prove(["PsdVerif.Props.C16"])
     ctx.trusted_base += [
         "Lean 4.33 kernel; axioms allowed: propext, Classical.choice, Quot.sound (audited per theorem)",
